@@ -129,7 +129,9 @@ def gen_case(rng):
     return {'op': 'init', 'kind': kind, 'cfg': cfg, 'exec_vnode': exec_vnode, 'stale': stale, **extra,
             'lines': lines_m,
             'hosts': [{'id': h, 'login': HOSTS[h][1], 'batch': HOSTS[h][2]} for h in hosts],
-            'env_cpus': env_cpus, 'detected': rng.choice([4, 8, 64]), 'reach': reach}
+            'env_cpus': env_cpus, 'detected': rng.choice([4, 8, 64]), 'reach': reach,
+            # some of the hosts that do not answer the probe hang instead of refusing
+            'hang': [i for i in range(len(HOSTS)) if i not in reach and rng.random() < 0.5]}
 
 
 def qstat_text(exec_vnode):
@@ -146,11 +148,16 @@ def qstat_text(exec_vnode):
 
 class FakeProc(object):
     results = {}
+    hang = set()
     def __init__(self, cmd):
         self.name = cmd.split()[-2]
         self.stdout, self.stderr, self.retcode = '', '', None
     def start(self): pass
-    def wait(self, timeout=None): self.retcode = 0 if FakeProc.results.get(self.name, False) else 1
+    def wait(self, timeout=None):
+        # a probe answers (0), is refused (1), or hangs: it has no return code when the timeout is over, and none
+        # after it was cancelled either (rc.process.Process leaves it unset)
+        if self.name in FakeProc.hang: self.retcode = None
+        else: self.retcode = 0 if FakeProc.results.get(self.name, False) else 1
     def cancel(self): pass
 
 
@@ -204,6 +211,7 @@ def run_real(rp, case, scratch):
         if cfg['service_nodes']:
             open(os.path.join(d, 'services'), 'w').write('x')
         FakeProc.results = {HOSTS[i][0]: True for i in case['reach']}
+        FakeProc.hang = set(HOSTS[i][0] for i in case.get('hang', []))
         if kind == 'fork':
             FakeProc.results = {'localhost': 0 in case['reach']}
         rmb.Process = FakeProc
@@ -285,6 +293,13 @@ def monitor(case, res, shared):
                 return ('node-not-in-allocation', 'node id %s (998 = unknown name, 999 = empty name)' % n)
     if any(n in al or n in sl for n in nl):
         return ('agent-or-service-node-offered', str(nl))
+    if cfg['backup'] and case['kind'] != 'fork':
+        # with backup nodes every node is probed first: only nodes whose probe answered are used
+        for n in nl + al + sl:
+            if n[0] not in case['reach']:
+                return ('node-used-although-its-probe-did-not-answer',
+                        'host id %s (%s) is used; its reachability probe %s' % (n[0], HOSTS[n[0]][0] if isinstance(n[0], int) and n[0] < len(HOSTS) else '?',
+                                                                                'hung' if n[0] in case.get('hang', []) else 'was refused'))
     if len(al) != cfg['agent_nodes'] or len(sl) != cfg['service_nodes']:
         return ('agent-service-reservation-wrong', '%d/%d reserved' % (len(al), len(sl)))
     cpn = res['cores_per_node'] + (len(cfg['blocked_cores']) if (cfg['blocked_cores'] or cfg['blocked_gpus']) else 0)
